@@ -248,8 +248,8 @@ theorem inv_step (ext : List Nat → Bool) (isReq : Bool) (lim0 : Int) (pre : Li
       refine ⟨inv.first, trivial, ?_⟩
       intro a _ b hb hpb; subst hb; rw [hps'] at hpb; cases hpb
     have hseenEq : s.seen = ((pre ++ [f]).filter (fun g => isPseudoName g.1)).map Prod.fst := by
-      simp only [List.filter_append, List.map_append, List.filter_cons, List.filter_nil, hps', Bool.false_eq_true,
-        if_false, List.map_nil, List.append_nil, inv.seen]
+      simp only [List.filter_append, List.filter_cons, List.filter_nil, hps', Bool.false_eq_true,
+        if_false, List.append_nil, inv.seen]
     have hsome : ∃ g ∈ pre ++ [f], isPseudoName g.1 = false := ⟨f, by simp, hps'⟩
     have hhdrs : ∀ (b : Bool), (f.1 != nContentLength) = b →
         decodedHeaders (pre ++ [f]) = if b then hdrAdd (decodedHeaders pre) f.1 f.2 else decodedHeaders pre := by
